@@ -327,7 +327,7 @@ def first_reply(server, reqbytes, grace, patient=False):
     return a, reply[0], reply[1]
 
 
-def exchange(server, reqbytes, sid, complete_uploads=True, patient=False):
+def exchange(server, reqbytes, sid, complete_uploads=True, patient=False, track=True):
     """One datagram to the listening port from a fresh endpoint; first reply; for an accepted
     upload, one short block; then the change of the sandbox.  Returns the trace event."""
     sb = server.sb
@@ -378,7 +378,7 @@ def exchange(server, reqbytes, sid, complete_uploads=True, patient=False):
         else:
             ev["reply"] = {"k": "garbage"}
     sock.close()
-    ev["delta"] = sb.delta(ev["up"], upbytes)
+    ev["delta"] = sb.delta(ev["up"], upbytes) if track else []
     return ev
 
 
